@@ -545,6 +545,69 @@ def setUiOutAt : Node → St → Path → Nat → Val → St × Option Nat
       let r := setUiOutAt m (σ.sub j) p k v
       pushUp rets j v (σ.graft j r.1) r.2
 
+/-! ## replacing a child inside a macro (`replace_child` / `replace_with` / `macro.label = Class`) -/
+
+/-- child `j` of the list, a term node, becomes the term node `g` with the same keyword arguments: the
+replacement copies the replaced node's connections and values (`copy_io`), takes its label and its
+places, and every value link of the macro that pointed at the replaced node's channel is re-pointed at
+the replacement's channel OF THE SAME POSITION — so the state of channel values is unchanged and the
+links (a function of the keyword arguments) are those of before -/
+def setF : List Node → Nat → Nat → List Node
+  | [], _, _ => []
+  | .leaf _ s :: ns, 0, g => .leaf g s :: ns
+  | n :: ns, 0, _ => n :: ns
+  | n :: ns, j + 1, g => n :: setF ns j g
+
+mutual
+/-- the definition after replacing child `j` of the macro at path `p` -/
+def replaceAt : Node → Path → Nat → Nat → Node
+  | .leaf f s, _, _, _ => .leaf f s
+  | .mac a body r oh s, [], j, g => .mac a (setF body j g) r oh s
+  | .mac a body r oh s, i :: p, j, g => .mac a (replaceAtL body i p j g) r oh s
+def replaceAtL : List Node → Nat → Path → Nat → Nat → List Node
+  | [], _, _, _, _ => []
+  | n :: ns, 0, p, j, g => replaceAt n p j g :: ns
+  | n :: ns, i + 1, p, j, g => n :: replaceAtL ns i p j g
+end
+
+/-- NOT the code: the value links handed over by matching the receiver's LABEL (= input position of a term
+node) instead of its identity — every single-use parameter whose consumer input has the same label as an
+input of the replaced child `j` is re-pointed at the replacement, the sibling it fed is left without -/
+def stealByLabel (body : List Node) (rets : List Ret) (j : Nat) (nargs : Nat) : List Node :=
+  let stolen : List (Nat × Nat) := (List.range nargs).filterMap fun k =>
+    match link body rets k with
+    | .child j' i => if j' ≠ j then some (k, i) else none
+    | _ => none
+  (List.range body.length).zip body |>.map fun (t, n) =>
+    match n with
+    | .leaf f srcs =>
+      .leaf f ((List.range srcs.length).zip srcs |>.map fun (i, sx) =>
+        if t = j then
+          match stolen.find? (fun x => x.2 == i) with
+          | some (k, _) => .arg k
+          | none => sx
+        else
+          match sx with
+          | .arg k => if stolen.any (fun x => x.1 == k) then .none else sx
+          | _ => sx)
+    | m => m
+
+/-- what `replace_child` does to the channel values after re-pointing the links: the macro input of every
+parameter linked to the replaced child is pushed into the replacement (`receiving.value = sending.value`),
+and the replacement's output value is pushed along its output link, up the chain. In a synchronised state
+both are no-ops; after a write on a receiving end (KF-C09-2) they repair the replaced child's links. -/
+def replaceState (n : Node) (σ : St) (p : Path) (j : Nat) : St :=
+  match nodeAt n p with
+  | some (.mac args body rets _ _) =>
+    let μ := σ.atPath p
+    let σ1 := (List.range args.length).foldl (fun acc k =>
+        match link body rets k with
+        | .child j' i =>
+          if j' = j then acc.modAt (p ++ [j]) (fun τ => τ.set .inp i (μ.get .inp k)) else acc
+        | _ => acc) σ
+    (setOutAt n σ1 (p ++ [j]) 0 ((σ1.atPath (p ++ [j])).get .out 0)).1
+  | _ => σ
+
 /-! ## plain composition (denotational semantics) -/
 
 /-- the value the creator's keyword argument stands for, given the macro's argument values and the
